@@ -4,7 +4,10 @@ the per-operation executors of `patch.go`) and of the three lines of `handleRunH
 (`operator.go`) that apply a hook's patch file, written the way the Go code computes; plus the
 short documented `Spec` the property is stated against.
 
-* cluster = association list `key ↦ object`; a key is the interned (kind, namespace, name);
+* cluster = association list `key ↦ object`; a key is the interned (resource, namespace, name) - the
+  resource (group, version, plural) is what `GroupVersionResource(apiVersion, kind)` answers for the
+  apiVersion and kind the document names: a kind served at two versions has two resources, each with
+  its own objects (section "addressing" at the end);
   an object is the association list of its payload fields (`data.*` / `spec.*`), values are strings
   `V.s` or integer literals `V.i`.
 * The API server (here: `kube-client/fake`, i.e. client-go's object tracker) is the assumed contract
@@ -711,5 +714,88 @@ def fstep (path : Nat → Path) (s : FState) (r : Nat) : FStep → FState
 def frun (path : Nat → Path) : List (Nat × FStep) → FState → FState
   | [], s => s
   | (r, st) :: rest, s => frun path rest (fstep path s r st)
+
+/-! ## successive executions on one cluster and one ObjectPatcher
+
+The operator has a single `ObjectPatcher` for all executions of all hooks. It holds a client and a
+logger and nothing else (`patch.go`: `type ObjectPatcher struct { kubeClient; logger }`), so the
+patch file of an execution is handled on the cluster the previous execution left and on nothing
+more; every execution has its own API-call log. -/
+
+def handleSeq (pf : PatchFn) (normalise : Bool) (f : Form) :
+    List (Stream × Writers) → Cluster → List HandleResult
+  | [], _ => []
+  | (s, ws) :: rest, c =>
+    let r := handleH pf normalise f s ⟨c, []⟩ ws
+    r :: handleSeq pf normalise f rest r.st.cluster
+
+namespace Spec
+
+/-- The property for successive patch files: each is judged (`expectedH`) on the cluster state the
+documented semantics give for the files before it. -/
+def runs (pf : PatchFn) : List (Bool × List Doc × Writers) → Cluster →
+    List (Bool × Bool × Cluster × List Action)
+  | [], _ => []
+  | (g, ds, ws) :: rest, c =>
+    let e := expectedH pf g ds c ws
+    e :: runs pf rest e.2.2.1
+
+end Spec
+
+/-! ## addressing: from the coordinates a document names to the object an API call reaches
+
+`executeCreateOperation`, `executePatchOperation`, `executeFilterOperation` and
+`executeDeleteOperation` each start with `o.kubeClient.GroupVersionResource(apiVersion, kind)` for
+the apiVersion and kind of THEIR operation and send their API calls to
+`Dynamic().Resource(gvr).Namespace(ns)` with the operation's name. The `Key` of an `Op` above is the
+interned `Target` computed here, its `gvr` flag is `(target d c).isSome`. -/
+
+/-- What a document names (interned): group and version of its `apiVersion` (version 0 = omitted:
+the discovery's preferred version), kind, namespace, name. -/
+structure Coord where
+  group : Nat
+  version : Nat
+  kind : Nat
+  ns : Nat
+  name : Nat
+  deriving DecidableEq, Repr
+
+abbrev Resource := Nat   -- an interned GroupVersionResource
+
+/-- `kubeClient.GroupVersionResource` as a function of group, version and kind (the discovery
+information of the cluster; `none`: not served). -/
+abbrev Discovery := Nat → Nat → Nat → Option Resource
+
+structure Target where
+  res : Resource
+  ns : Nat
+  name : Nat
+  deriving DecidableEq, Repr
+
+/-- The documented addressing: the object of that namespace and name under the resource serving
+the group, version and kind the document names. -/
+def target (d : Discovery) (c : Coord) : Option Target :=
+  (d c.group c.version c.kind).map (fun r => ⟨r, c.ns, c.name⟩)
+
+/-- The pinned executors, over all operations of all executions on one patcher: one lookup per operation. -/
+def targets (d : Discovery) (cs : List Coord) : List (Option Target) := cs.map (target d)
+
+/-- A patcher that REMEMBERS resolved resources (a field surviving from operation to operation and
+from execution to execution) under the key `kf` of the coordinates; failed lookups are not kept. -/
+def resolveMemo (kf : Coord → Nat) (d : Discovery) (memo : List (Nat × Resource)) (c : Coord) :
+    Option Resource × List (Nat × Resource) :=
+  match aget memo (kf c) with
+  | some r => (some r, memo)
+  | none =>
+    match d c.group c.version c.kind with
+    | some r => (some r, (kf c, r) :: memo)
+    | none => (none, memo)
+
+def targetsMemo (kf : Coord → Nat) (d : Discovery) :
+    List (Nat × Resource) → List Coord → List (Option Target)
+  | _, [] => []
+  | memo, c :: rest =>
+    let r := resolveMemo kf d memo c
+    (r.1.map (fun r => (⟨r, c.ns, c.name⟩ : Target))) :: targetsMemo kf d r.2 rest
 
 end ShellOp.Patch
